@@ -34,6 +34,9 @@ func PathFor(in interface{}) (string, error) {
 	if in == nil {
 		return "", errors.New("can not calculate path to nil")
 	}
+	if rv := reflect.ValueOf(in); rv.Kind() == reflect.Ptr && rv.IsNil() {
+		return "", errors.New("can not calculate path to nil")
+	}
 
 	switch s := in.(type) {
 	case string:
